@@ -168,6 +168,8 @@ func Verif_C01_XSealT() {
 // Verif_C01_RealMAC: sealGeneric with the REAL generic Poly1305 on both sides (no MAC
 // abstraction): the impl's chunked Write calls and the reference's single Sum over the
 // assembled message must give the same tag terms; |pt| in {0,17,64}, |ad| in {0,13}.
+// NOT REGISTERED in checks/C01.json: the run did not finish within 10 minutes (the generic
+// Poly1305 finalisation does not fold); kept as a starting point.
 func Verif_C01_RealMAC() {
 	nPt := []int{0, 17, 64}[verifrt.Choose(0, 2)]
 	nAd := []int{0, 13}[verifrt.Choose(0, 1)]
